@@ -129,7 +129,16 @@ def keys_mode(tier, nohash, order='fwd'):
     table = [(n, mk, False) for n, mk in keymap_table(tier)] + [(n, mk, True) for n, mk in option_sweep()]
     for kmname, mk, sweep in table:
         for src, f in (functions()[1:2] if sweep else functions()):
-            W = klepto.inf_cache(keymap=mk())(f)
+            m = mk()
+            if order == 'rev':
+                # in every other session somebody builds a longer chain on top of this keymap object before it is used
+                # (a + m is a new keymap; m itself stays what it was)
+                try:
+                    import klepto.keymaps as _km
+                    _km.picklemap(serializer='pickle') + m
+                except Exception:
+                    pass
+            W = klepto.inf_cache(keymap=m)(f)
             rows = {}
             # (the table is indexed by call; the *order* in which this session asks for the keys is another session's order
             # reversed -- the key of a call may not depend on what the process has keyed before)
